@@ -9,6 +9,7 @@ package main
 // the rules it owns.
 
 import (
+	"go/types"
 	"sort"
 	"fmt"
 	"go/ast"
@@ -415,7 +416,41 @@ func (b *Base) refineNoHook(x *Exec, cond ast.Expr, truth bool, s St) []St {
 	return b.Refine(x, cond, truth, s)
 }
 
+// readerParam returns the io.Reader parameter of the outermost function of fn.
+func readerParam(fn *FlowFn) types.Object {
+	for fn.Outer != nil {
+		fn = fn.Outer
+	}
+	if fn.Type.Params == nil {
+		return nil
+	}
+	for _, f := range fn.Type.Params.List {
+		if t := fn.Info.TypeOf(f.Type); t != nil && t.String() == "io.Reader" {
+			for _, n := range f.Names {
+				return fn.Info.Defs[n]
+			}
+		}
+	}
+	return nil
+}
+
 func (d *diskFlow) assign(x *Exec, as *ast.AssignStmt, s St) []St {
+	// Put's reader is given up (r = nil disarms the deferred drain) only once it was consumed
+	if d.top == kPut && x.Parent == nil {
+		if rp := readerParam(x.Fn); rp != nil {
+			for i, lhs := range as.Lhs {
+				if identObj(x.Fn.Info, lhs) != rp {
+					continue
+				}
+				isNil := len(as.Rhs) == len(as.Lhs) && exprStr(ast.Unparen(as.Rhs[i])) == "nil"
+				d.cnt["rassign"]++
+				site := fmt.Sprintf("%s:reader-assign#%d", kPut, stmtOrdinal(x.Fn, as))
+				d.note(isNil && s.Get("wrote") == "ok", "R14j", site+":after-consumed", d.pos(as),
+					"Put gives up its reader (which disarms the deferred drain) only after writeAndCloseFile read it to the end",
+					"Put's reader parameter is reassigned on a path where it was not consumed: the deferred io.Copy(io.Discard, r) no longer drains it, a pipe writer feeding Put (SpliceBlob, ByteStream.Write) blocks for ever", x.Trace())
+			}
+		}
+	}
 	// blobFile = tf.Name()
 	if len(as.Lhs) == 1 && len(as.Rhs) == 1 {
 		if call, ok := ast.Unparen(as.Rhs[0]).(*ast.CallExpr); ok && fullCalleeName(x.Fn.Info, call) == "os.(File).Name" {
@@ -628,4 +663,17 @@ func diskHelpersToInline(c *Ctx) []string {
 	}
 	sort.Strings(out)
 	return out
+}
+
+// stmtOrdinal numbers the assignments to the reader parameter in source order
+// (keys must not depend on line numbers).
+func stmtOrdinal(fn *FlowFn, as *ast.AssignStmt) int {
+	n := 0
+	ast.Inspect(fn.Body, func(m ast.Node) bool {
+		if a, ok := m.(*ast.AssignStmt); ok && a.Pos() <= as.Pos() && len(a.Lhs) == len(as.Lhs) && exprStr(a.Lhs[0]) == exprStr(as.Lhs[0]) {
+			n++
+		}
+		return true
+	})
+	return n
 }
